@@ -13,6 +13,7 @@ def showVal : Val → String
     | .struct => "{" ++ showVals xs ++ "}"
     | .vec => "[" ++ showVals xs ++ "]"
     | .kvec => "<" ++ showVals xs ++ ">"
+    | .atom => "(" ++ showVals xs ++ ")"
     | .opt => match xs with
       | [] => "~"
       | x :: _ => "?" ++ showVal x
@@ -42,6 +43,7 @@ def parseVal : Nat → List Char → Option (Val × List Char)
     | '{' :: r => (parseItems f r '}').map fun (xs, r') => (.node .struct xs, r')
     | '[' :: r => (parseItems f r ']').map fun (xs, r') => (.node .vec xs, r')
     | '<' :: r => (parseItems f r '>').map fun (xs, r') => (.node .kvec xs, r')
+    | '(' :: r => (parseItems f r ')').map fun (xs, r') => (.node .atom xs, r')
     | '~' :: r => some (.node .opt [], r)
     | '?' :: r => (parseVal f r).map fun (v, r') => (.node .opt [v], r')
     | c :: r => if isDigit c then let (n, r') := takeNat (c :: r) 0; some (.leaf n, r') else none
@@ -95,6 +97,23 @@ def lastSeen (log : List (Nat × Seen)) (e : Nat) : Option Seen :=
   (log.reverse.find? (·.1 = e)).map (·.2)
 
 def chainOf (st : St) (e : Nat) : Chain := match st.effs[e]? with | some x => x.chain | none => []
+
+/-- length of the first prefix of `c` that addresses an `Option` field which `c` then unwraps -/
+def optPrefix (v : Val) (c : Chain) : Option Nat :=
+  (List.range c.length).find? fun n =>
+    match logicalGet v (c.take n) with
+    | .val (.node .opt _) => true
+    | _ => false
+
+/-- the field a reader reads for the purpose of "is this write related to it": a reader that goes through
+`OptionStoreExt::map` / `invert` reads the `Option` field itself (is it `Some`?) -/
+def relChainOf (st : St) (e : Nat) : Chain :=
+  match st.effs[e]? with
+  | some x =>
+    match x.kind with
+    | .omap => match optPrefix st.val x.chain with | some n => x.chain.take n | none => x.chain
+    | _ => x.chain
+  | none => []
 def isImm (st : St) (e : Nat) : Bool := match st.effs[e]? with | some x => x.imm | none => false
 
 /-- the statement's order clause: a reader of a proper ancestor of the written field `w` must not run
@@ -102,7 +121,7 @@ after (its first run) a reader of a proper descendant of `w` -/
 def orderBad (st : St) (w : Chain) : List Nat → Bool
   | [] => false
   | e :: rest =>
-    (strictPrefix w (chainOf st e) && rest.any (fun e2 => strictPrefix (chainOf st e2) w)) || orderBad st w rest
+    (strictPrefix w (relChainOf st e) && rest.any (fun e2 => strictPrefix (relChainOf st e2) w)) || orderBad st w rest
 
 def valuesBad (st : St) (ids : List Nat) : Bool :=
   ids.any fun e =>
@@ -120,7 +139,7 @@ def endsDefaultTrack (c : Chain) : Bool :=
 /-- verdict of a write-like op: `ws` = the logical chains written, `wc` = the accessor chain used -/
 def judgeWrite (before st : St) (ever : List Bool) (ws : List Chain) (wc : Chain) (isPatch : Bool) : String :=
   let all := List.range st.effs.length
-  let exp := all.filter fun e => ws.any fun w => related w (chainOf st e)
+  let exp := all.filter fun e => ws.any fun w => related w (relChainOf st e)
   let rb := before.ready
   let ra := st.ready
   let ran := dedup (st.log.map (·.1))
@@ -140,6 +159,8 @@ def judgeWrite (before st : St) (ever : List Bool) (ws : List Chain) (wc : Chain
     else "fail segment-collision"
   else if !missing.isEmpty then
     if isPatch && keyed then "fail patch-keyed-by-index"
+    else if missing.all (fun e => match st.effs[e]? with | some x => x.kind == .iterU | none => false)
+      then "fail iter-unkeyed-misses-ancestor-write"
     else if missing.all (fun e => endsDefaultTrack (chainOf st e)) then "fail accessor-misses-ancestor-write"
     else "fail missing-wake"
   else if orderBad st wc ran then "fail wake-order"
@@ -181,7 +202,7 @@ def doWrite (d : DS) (st : St) (op : Op) (c : Chain) (isPatch : Bool) (newv : Op
       | .done =>
         if isPatch then
           match old, newv with
-          | .val o, some n => diffVal o n c
+          | .val o, some n => diffVal o.untop n.untop c
           | _, _ => [c]
         else [c]
       | _ => []
@@ -207,16 +228,7 @@ def step (d : DS) (line : String) : DS × String :=
       match parseChain c with
       | none => (d, "bad-op")
       | some c =>
-        let mk (iter imm : Bool) : DS × String :=
-          if iter && !endsKeyed c then (d, "bad-op") else
-          let r := stepOp st (.reader c iter imm)
-          if r.1.panicked then ({ d with st := some r.1, dead := true }, "panic ## fail stale-keys")
-          else ({ d with st := some r.1, ever := updEver d.ever r.1 }, render r.1 "" (judgeRuns r.1))
-        if kind == "eff" then mk false false
-        else if kind == "effi" then mk true false
-        else if kind == "imm" then mk false true
-        else if kind == "immi" then mk true true
-        else if kind == "krev" then
+        if kind == "krev" then
           if (vecLen st c).isSome && endsKeyed c then doWrite d st (.krev c) c false none else (d, "bad-op")
         else if kind == "poll" then
           -- `poll <i>`: here `c` failed to parse as a chain unless it is `-`; handled below
@@ -256,6 +268,36 @@ def step (d : DS) (line : String) : DS × String :=
       | _, _, _ => (d, "bad-op")
     | _, _ => (d, "bad-op")
 
+def hasKeyAcc (c : Chain) : Bool := c.any fun a => match a with | .key _ => true | _ => false
+
+/-- `eff|imm <chain> [how]`: how = get|read|with|track (the same reader for the model), map|invert
+(`OptionStoreExt`), iter (keyed: `for` over the field; else `iter_unkeyed`), field<k>|arc<k> (the accessor
+after k steps converted to `Field` / `ArcField` when the reader is created) -/
+def readerOp (d : DS) (st : St) (imm : Bool) (c : Chain) (how : String) : DS × String :=
+  let go (kind : RKind) (pre : Option Nat) : DS × String :=
+    let r := stepOp st (.reader c kind imm pre)
+    if r.1.panicked then ({ d with st := some r.1, dead := true }, "panic ## fail stale-keys")
+    else ({ d with st := some r.1, ever := updEver d.ever r.1 }, render r.1 "" (judgeRuns r.1))
+  if how == "get" || how == "read" || how == "with" || how == "track" then go .plain none
+  else if how == "map" || how == "invert" then
+    if (optPrefix st.val c).isSome then go .omap none else (d, "bad-op")
+  else if how == "iter" then
+    if endsKeyed c then go .iterK none
+    else match logicalGet st.val c with
+      | .val (.node .vec _) => go .iterU none
+      | _ => (d, "bad-op")
+  else
+    let erased (ds : String) : DS × String :=
+      match ds.toNat? with
+      | some k =>
+        let pre := c.take k
+        if k ≤ c.length && !endsKeyed pre && (!hasKeyAcc pre || k == c.length) then go .plain (some k)
+        else (d, "bad-op")
+      | none => (d, "bad-op")
+    if how.startsWith "field" then erased (how.drop 5).toString
+    else if how.startsWith "arc" then erased (how.drop 3).toString
+    else (d, "bad-op")
+
 /-- `poll <i>` is recognised before the generic two-word ops -/
 def step' (d : DS) (line : String) : DS × String :=
   match words line, d.dead, d.st with
@@ -266,6 +308,18 @@ def step' (d : DS) (line : String) : DS × String :=
       if r.1.panicked then ({ d with st := some r.1, dead := true }, "panic ## fail stale-keys")
       else ({ d with st := some r.1 }, render r.1 "" (judgeRuns r.1))
     | none => (d, "bad-op")
+  | [kind, c], false, some st =>
+    if kind == "eff" || kind == "imm" || kind == "effi" || kind == "immi" then
+      match parseChain c with
+      | some c => readerOp d st (kind.startsWith "imm") c (if kind.endsWith "i" then "iter" else "get")
+      | none => (d, "bad-op")
+    else step d line
+  | [kind, c, how], false, some st =>
+    if kind == "eff" || kind == "imm" then
+      match parseChain c with
+      | some c => readerOp d st (kind == "imm") c how
+      | none => (d, "bad-op")
+    else step d line
   | _, _, _ => step d line
 
 def main : IO Unit := runDriver step' { st := none, dead := false, ever := [] }
